@@ -23,7 +23,7 @@ BUDGET = {'quick': 4000, 'thorough': 6000}
 RULE = ("Case = 1-4 blocks from {probe (saved state absent/valid/rejected x init_async absent/ok/fail/never at "
         "t x init_timeout 0/2/5 x init_regular absent/sets/does nothing x initdef absent/value), Input without "
         "initdef, ValuePoll (value / UNDEF then value / async value / raising; interval below or above the "
-        "timeout), InitAsync (ok/fail/never)} with on_output events along an acyclic topology (events are "
+        "timeout), InitAsync (ok/fail/never)} with on_output events along an acyclic topology, optionally answered by an event back to the sender that arrives in the middle of the sender's own initialisation routine (events are "
         "emitted by every init step that changes the output), optionally combinational blocks fed by constants only, optionally a FuncBlock whose first evaluation "
         "fails (with or without a block having asynchronous clean-up), 1-2 tasks waiting in wait_init() from "
         "the first instant; each case is run for up to 4 (thorough: all <=24) creation orders. "
@@ -85,6 +85,17 @@ def cases(draw):
     for i in range(n):
         blocks[i]['noops'] = [j for j in range(i + 1, n)
                               if blocks[j]['kind'] in ('probe', 'input') and draw(st.integers(0, 9)) < 3]
+    # back edges: a probe answers every change of its output with an 'ack' event to an earlier probe that
+    # itself receives no 'put' events (so the answer can never meet a busy handler); the answer may arrive
+    # while the earlier block is in the middle of one of its own initialisation routines
+    for j in range(n):
+        blocks[j]['acks'] = []
+    for i in range(n):
+        if blocks[i]['kind'] != 'probe' or any(i in b['emits'] or i in b['noops'] for b in blocks):
+            continue
+        for j in range(i + 1, n):
+            if blocks[j]['kind'] == 'probe' and draw(st.integers(0, 9)) < 4:
+                blocks[j]['acks'].append(i)
     # an Input without initdef is mostly given a chance: somebody sends it an event
     for j in range(1, n):
         if blocks[j]['kind'] == 'input' and not any(j in b['emits'] for b in blocks) \
@@ -156,6 +167,8 @@ class Model:
         self.calls = [[] for _ in range(n)]
         self.silent = [False] * n       # InitAsync drops its output events when it gives up
         self.events_delivered = 0
+        self.busy = []          # blocks inside an event handler (innermost last)
+        self.unsure = False     # an event met a busy destination: the recursion guard decides (-> C11)
         self.async_started = 0
         self.duration = 0.0
 
@@ -163,19 +176,37 @@ class Model:
         if self.out[i] is UNDEF or self.out[i] != value:
             self.out[i] = value
             if not self.silent[i]:
+                if any(j in self.busy for j in self.blocks[i].get('noops', [])):
+                    self.unsure = True
                 for j in self.blocks[i]['emits']:
                     self.event(j, i, value)
+                for j in self.blocks[i].get('acks', []):
+                    self.ack(j, i)
+
+    def ack(self, j, src):
+        self.events_delivered += 1
+        if j in self.busy:
+            self.unsure = True
+        if self.steps[j] in (0, 1):
+            self.init_steps(j, full=True)
+        self.calls[j].append(f'ack:b{src}')
 
     def event(self, j, src, value):
         self.events_delivered += 1
+        if j in self.busy:
+            self.unsure = True
         if self.steps[j] in (0, 1):
             self.init_steps(j, full=True)
         b = self.blocks[j]
-        if b['kind'] == 'probe':
-            self.calls[j].append(f'event:b{src}')
-            self.set_output(j, ['E', f'b{src}'])
-        else:
-            self.set_output(j, value)
+        self.busy.append(j)
+        try:
+            if b['kind'] == 'probe':
+                self.calls[j].append(f'event:b{src}')
+                self.set_output(j, ['E', f'b{src}'])
+            else:
+                self.set_output(j, value)
+        finally:
+            self.busy.pop()
 
     def init_steps(self, j, full):
         steps = self.steps[j]
@@ -321,6 +352,9 @@ class Probe(edzed.AddonPersistence, edzed.AddonAsync, edzed.SBlock):
         self.calls.append(f'event:{source}')
         self.set_output(['E', source])
 
+    def _event_ack(self, *, source, **_data):
+        self.calls.append(f'ack:{source}')
+
     def get_state(self):
         return self.output
 
@@ -360,7 +394,8 @@ def run_order(case, order):
             b = blocks[i]
             name = f'b{i}'
             evs = ([edzed.Event(f'b{j}', edzed.EventCond(None, None)) for j in b.get('noops', [])]
-                   + [edzed.Event(f'b{j}', 'put') for j in b['emits']])
+                   + [edzed.Event(f'b{j}', 'put') for j in b['emits']]
+                   + [edzed.Event(f'b{j}', 'ack') for j in b.get('acks', [])])
             if b['kind'] == 'probe':
                 kw = {}
                 if b['initdef'] is not None:
@@ -487,11 +522,21 @@ def execute(case, all_orders=False):
     verdicts = {}
     started_async = delivered = 0
     orders = orders_for(case, all_orders or case.get('all_orders', False))
+    recursion_prone = False
     for order in orders:
         model = Model(case, order)
         verdict = model.run()
         obs = run_order(case, order)
         tag = f"creation order {list(order)}: "
+        if model.unsure:
+            # an answer met a destination that was still handling an event: whether that is fatal is the
+            # business of the recursion guard (C11), not of the start-up rules; only 'at most once' is kept
+            recursion_prone = True
+            for i, calls in enumerate(obs['calls']):
+                for r in ('restore', 'async', 'regular', 'fromvalue'):
+                    if calls is not None and calls.count(r) > 1:
+                        res.fail('C05.routine_twice', tag + f"b{i}: {r} called {calls.count(r)} times: {calls}")
+            continue
         real_verdicts = {w[1] for w in obs['waits']}
         if len(real_verdicts) != 1:
             res.fail('C05.waiters_disagree', tag + f"{obs['waits']}")
@@ -519,12 +564,23 @@ def execute(case, all_orders=False):
                     res.fail('C05.routine_twice', tag + f"b{i}: {r} called {calls.count(r)} times: {calls}")
             pos = {r: calls.index(r) for r in ('restore', 'async', 'regular', 'fromvalue') if r in calls}
             seq = [pos[r] for r in ('restore', 'async', 'regular', 'fromvalue') if r in pos]
+            if 'async' in pos and any(c.startswith(('event:', 'ack:')) for c in calls[:pos['async']]):
+                # an event that arrived before the asynchronous phase made the synchronous steps run first;
+                # if it left the block uninitialised, the asynchronous routine comes after them
+                seq = [pos[r] for r in ('restore', 'regular', 'fromvalue') if r in pos]
+                if 'restore' in pos and pos['restore'] > pos['async']:
+                    seq = [1, 0]
             if seq != sorted(seq):
                 res.fail('C05.routine_order', tag + f"b{i}: {calls}")
             if 'async' in calls and (blocks[i]['timeout'] <= 0):
                 res.fail('C05.async_with_zero_timeout', tag + f"b{i}: {calls}")
             evpos = [k for k, c in enumerate(calls) if c.startswith('event:')]
-            if evpos and 'regular' in pos and pos['regular'] > evpos[0]:
+            # (an event that the block brought upon itself from inside its own restoration cannot be
+            # preceded by the remaining steps without running a routine twice; the model knows these)
+            mcalls = model.calls[i]
+            self_inflicted = 'regular' in mcalls and any(
+                c.startswith('event:') for c in mcalls[:mcalls.index('regular')])
+            if evpos and 'regular' in pos and pos['regular'] > evpos[0] and not self_inflicted:
                 res.fail('C05.event_before_sync_init', tag + f"b{i}: {calls}")
         if real == 'fail':
             if not obs.get('sim_done', True):
@@ -568,7 +624,7 @@ def execute(case, all_orders=False):
         delivered = max(delivered, model.events_delivered)
     if len(set(verdicts.values())) > 1:
         res.fail('C05.order_dependent', f"start-up verdict depends on the creation order: {verdicts}")
-    kinds = {(b['kind'], str({k: v for k, v in b.items() if k not in ('kind', 'emits', 'noops')})) for b in blocks}
+    kinds = {(b['kind'], str({k: v for k, v in b.items() if k not in ('kind', 'emits', 'noops', 'acks')})) for b in blocks}
     res.nontrivial = len(kinds) >= 2 and (started_async >= 1 or delivered >= 1)
     res.evals = len(orders)
     res.classes = [f'blocks={len(blocks)}', 'verdict ' + '/'.join(sorted(set(verdicts.values())))]
@@ -578,5 +634,9 @@ def execute(case, all_orders=False):
         res.classes.append('asynchronous routine started')
     if case['calc'] == 'fail':
         res.classes.append('first evaluation fails')
+    if recursion_prone:
+        res.classes.append('answer meets a busy block (verdict not compared)')
+    if any(b.get('acks') for b in blocks):
+        res.classes.append('events answered with an event back to the sender')
     res.outcome = {'orders': len(orders), 'verdicts': sorted(set(verdicts.values()))}
     return res
